@@ -4,7 +4,9 @@ import (
 	"fmt"
 	"math/big"
 	"sort"
+	"strconv"
 	"strings"
+	"sync"
 )
 
 // ---------------------------------------------------------------------------------------
@@ -95,6 +97,39 @@ type Term struct {
 	Name string   // for leaves: symbol / literal text
 	Lit  *big.Int // integer literal
 	kind termKind
+	id   int
+}
+
+var internTab = map[string]*Term{}
+var internMu sync.Mutex
+
+// intern returns the canonical pointer for a structurally identical term (hash-consing).
+func intern(t *Term) *Term {
+	var sb strings.Builder
+	sb.WriteString(strconv.Itoa(int(t.kind)))
+	sb.WriteByte('|')
+	sb.WriteString(t.Op)
+	sb.WriteByte('|')
+	sb.WriteString(t.Name)
+	sb.WriteByte('|')
+	sb.WriteString(t.Sort.Name)
+	if t.Lit != nil {
+		sb.WriteByte('|')
+		sb.WriteString(t.Lit.String())
+	}
+	for _, a := range t.Args {
+		sb.WriteByte(',')
+		sb.WriteString(strconv.Itoa(a.id))
+	}
+	k := sb.String()
+	internMu.Lock()
+	defer internMu.Unlock()
+	if o, ok := internTab[k]; ok {
+		return o
+	}
+	t.id = len(internTab) + 1
+	internTab[k] = t
+	return t
 }
 
 type termKind int
@@ -112,13 +147,13 @@ const (
 )
 
 var (
-	True  = &Term{kind: tBoolLit, Name: "true", Sort: SBool}
-	False = &Term{kind: tBoolLit, Name: "false", Sort: SBool}
+	True  = intern(&Term{kind: tBoolLit, Name: "true", Sort: SBool})
+	False = intern(&Term{kind: tBoolLit, Name: "false", Sort: SBool})
 )
 
 func IntLit(i int64) *Term { return BigLit(big.NewInt(i)) }
 func BigLit(b *big.Int) *Term {
-	return &Term{kind: tIntLit, Lit: new(big.Int).Set(b), Sort: SInt}
+	return intern(&Term{kind: tIntLit, Lit: new(big.Int).Set(b), Sort: SInt})
 }
 func BoolLit(b bool) *Term {
 	if b {
@@ -127,14 +162,14 @@ func BoolLit(b bool) *Term {
 	return False
 }
 
-func Sym(name string, s *Sort) *Term { return &Term{kind: tSym, Name: name, Sort: s} }
+func Sym(name string, s *Sort) *Term { return intern(&Term{kind: tSym, Name: name, Sort: s}) }
 
 func (t *Term) IsTrue() bool  { return t.kind == tBoolLit && t.Name == "true" }
 func (t *Term) IsFalse() bool { return t.kind == tBoolLit && t.Name == "false" }
 func (t *Term) IsLit() bool   { return t.kind == tIntLit }
 
 func App(op string, s *Sort, args ...*Term) *Term {
-	return &Term{kind: tApp, Op: op, Args: args, Sort: s}
+	return intern(&Term{kind: tApp, Op: op, Args: args, Sort: s})
 }
 
 // uninterpreted function registry: name -> (arg sorts, result sort)
@@ -163,7 +198,7 @@ func UF(name string, res *Sort, args ...*Term) *Term {
 			}
 		}
 	}
-	return &Term{kind: tUF, Op: name, Args: args, Sort: res}
+	return intern(&Term{kind: tUF, Op: name, Args: args, Sort: res})
 }
 
 func Not(a *Term) *Term {
@@ -175,6 +210,18 @@ func Not(a *Term) *Term {
 	}
 	if a.kind == tApp && a.Op == "not" {
 		return a.Args[0]
+	}
+	if a.kind == tApp && len(a.Args) == 2 {
+		switch a.Op {
+		case "<":
+			return App(">=", SBool, a.Args[0], a.Args[1])
+		case "<=":
+			return App(">", SBool, a.Args[0], a.Args[1])
+		case ">":
+			return App("<=", SBool, a.Args[0], a.Args[1])
+		case ">=":
+			return App("<", SBool, a.Args[0], a.Args[1])
+		}
 	}
 	return App("not", SBool, a)
 }
@@ -428,7 +475,7 @@ func Store(arr, idx, v *Term) *Term {
 }
 
 func ConstArray(s *Sort, v *Term) *Term {
-	return &Term{kind: tConst, Sort: s, Args: []*Term{v}}
+	return intern(&Term{kind: tConst, Sort: s, Args: []*Term{v}})
 }
 
 func Con(s *Sort, args ...*Term) *Term {
@@ -440,7 +487,7 @@ func Con(s *Sort, args ...*Term) *Term {
 			panic(fmt.Sprintf("constructor %s field %s sort mismatch %s vs %s", s.Name, s.Fields[i].Name, s.Fields[i].Sort, a.Sort))
 		}
 	}
-	return &Term{kind: tCon, Sort: s, Args: args}
+	return intern(&Term{kind: tCon, Sort: s, Args: args})
 }
 
 func SelField(t *Term, i int) *Term {
@@ -456,7 +503,7 @@ func SelField(t *Term, i int) *Term {
 			return Ite(t.Args[0], SelField(t.Args[1], i), SelField(t.Args[2], i))
 		}
 	}
-	return &Term{kind: tSel, Name: t.Sort.Name + "." + t.Sort.Fields[i].Name, Args: []*Term{t}, Sort: t.Sort.Fields[i].Sort, Lit: big.NewInt(int64(i))}
+	return intern(&Term{kind: tSel, Name: t.Sort.Name + "." + t.Sort.Fields[i].Name, Args: []*Term{t}, Sort: t.Sort.Fields[i].Sort, Lit: big.NewInt(int64(i))})
 }
 
 func FieldByName(t *Term, name string) *Term {
@@ -747,7 +794,7 @@ func (sc *Script) Render(logic string, produceModels bool) string {
 			if i > 0 {
 				sb.WriteString(" ")
 			}
-			printTerm(&sb, v, names)
+			printTerm(&sb, v, nil)
 		}
 		sb.WriteString("))\n")
 	}
